@@ -191,14 +191,22 @@ Proof.
     rewrite (Hu w w1 A). rewrite (IHl IHx'). reflexivity.
 Qed.
 
-Lemma remove_meta_vperm h v v' : vperm v v' -> vperm (remove_meta h v) (remove_meta h v').
+Lemma remove_meta_vperm h : forall v v', vperm v v' -> vperm (remove_meta h v) (remove_meta h v').
 Proof.
-  intros P. inversion P as [w|l l1 F|l l1 l2 F Pm ND]; subst; [apply vp_refl| |]; cbn [remove_meta].
-  - apply vp_list. apply F2_filter; [exact F|]. intros a b Rab. rewrite (vperm_is_meta h a b Rab). reflexivity.
-  - apply (vp_dict _ (filter (fun kv : bytes * value => negb (is_meta h (snd kv))) l1)).
-    + apply F2_filter; [exact F|]. intros a b [_ Rab]. rewrite (vperm_is_meta h _ _ Rab). reflexivity.
-    + apply Permutation_filter'. exact Pm.
-    + apply NoDup_map_filter. exact ND.
+  induction v as [| z | b | b | s | s | q | l IHl | l IHl | n] using value_ind2; intros v' P;
+    inversion P as [w|l0 l1 F|l0 l1 l2 F Pm ND]; subst; try apply vp_refl.
+  - rewrite !remove_meta_list. apply vp_list. clear P.
+    induction F as [|a b l l1 Rab F IHF]; [constructor|]. inversion IHl as [|? ? Ha IHl']; subst.
+    cbn [filter]. rewrite <- (vperm_is_meta h a b Rab). destruct (is_meta h a); cbn [negb map]; [apply IHF; exact IHl'|].
+    constructor; [apply Ha; exact Rab|apply IHF; exact IHl'].
+  - rewrite !remove_meta_dict.
+    apply (vp_dict _ (map (fun kv : list N * value => (fst kv, remove_meta h (snd kv)))
+                          (filter (fun kv : list N * value => negb (is_meta h (snd kv))) l1))).
+    + clear P Pm ND. induction F as [|[ka va] [kb vb] l l1 [Ek Rab] F IHF]; [constructor|]. inversion IHl as [|? ? Ha IHl']; subst.
+      cbn [fst snd] in *. cbn [filter snd]. rewrite <- (vperm_is_meta h va vb Rab). destruct (is_meta h va); cbn [negb map fst snd]; [apply IHF; exact IHl'|].
+      constructor; [split; [exact Ek|apply Ha; exact Rab]|apply IHF; exact IHl'].
+    + apply Permutation_map. apply Permutation_filter'. exact Pm.
+    + rewrite map_map. cbn [fst]. apply NoDup_map_filter. exact ND.
 Qed.
 
 (* the argument loop takes the same decision for two stored values related by vperm *)
